@@ -84,6 +84,7 @@ type c14Scn struct {
 	BufOrder int    `json:"buf_order"` // 0: BUFFER n, PTT TRUE, BUFFER 0, PTT FALSE back to back; 1: BUFFER n, pause, BUFFER 0; 2: BUFFER n, n/2, 0 back to back
 	CloseAns int    `json:"close_ans"` // 0 DISCONNECTED, 1 NEWSTATE DISC, 2 silence
 	Mal      int    `json:"mal"`
+	Deep     bool   `json:"deep,omitempty"` // small scenario explored one deviation deeper, also in the quick tier
 	Choices  []int  `json:"choices,omitempty"`
 }
 
@@ -506,6 +507,7 @@ func c14Harness(sc c14Scn, o *c14Obs) func() {
 				}
 			case "outbound", "ptt":
 				o.stage = "write"
+				vs.Mark("connected")
 				for k, n := range sc.Writes {
 					p := c13Payload(k, n)
 					m, err := conn.Write(p)
@@ -687,6 +689,11 @@ func c14Scenarios(thorough bool) []c14Scn {
 				}
 			}
 		}
+		// one small write explored to deviation bound 2 in every tier (the Write / control-loop hand-over
+		// of BUFFER updates needs two deviations to be reordered)
+		for _, bo := range []int{0, 2} {
+			out = append(out, c14Scn{Kind: "outbound", Serial: serial, Writes: []int{1}, BufOrder: bo, CloseAns: 1, Deep: true})
+		}
 		if serial {
 			for cf := 1; cf <= 3; cf++ {
 				out = append(out, c14Scn{Kind: "outbound", Serial: true, Writes: []int{10, 3}, CRCFault: cf})
@@ -746,6 +753,12 @@ func C14(args []string) {
 		}
 		if sc.Seg > 3 || big || sc.Kind == "malformed" && sc.Mal >= 7 {
 			maxBound = 0
+		}
+		if sc.Deep {
+			// set-up (open, initialise, dial) on the default schedule, every schedule with up to
+			// two (thorough three) deviations from the first Write on
+			e.FromMark, e.MaxExec = "connected", 60000
+			maxBound++
 		}
 		e.Check = func(choices []int, res *vs.Result) {
 			r.Evals.Add(1)
